@@ -4,7 +4,7 @@ From Coq Require Import ZArith List Bool Lia.
 Import ListNotations.
 Require Import Base.Py Base.ZList Model.Splice Model.Fam_mp4 Proofs.Splice_lemmas
   Proofs.Fam_mp4_bytes Proofs.Fam_mp4_tree Proofs.Fam_mp4_steps Proofs.Fam_mp4_agree Proofs.Fam_mp4_path
-  Proofs.Fam_mp4_lists Proofs.Fam_mp4_surgery Proofs.Fam_mp4_shift.
+  Proofs.Fam_mp4_lists Proofs.Fam_mp4_surgery Proofs.Fam_mp4_shift Proofs.Fam_mp4_parse.
 Open Scope Z_scope.
 
 Lemma flat_in_split l1 a l2 x : In x (mp4_flat (l1 ++ a :: l2)) ->
@@ -21,6 +21,43 @@ Qed.
 (* no offset table hides among the ilst items (an item named stco/co64 would be taken for a table by findall) *)
 Definition is_table_name (x : mp4_atom) : bool := mp4_named N_stco x || mp4_named N_co64 x || mp4_named N_tfhd x.
 Definition ilst_clean (ilst : mp4_atom) : bool := forallb (fun x => negb (is_table_name x)) (mp4_flat_atom ilst).
+
+
+(* ------------------------------------------------------------------ the table rules, atom by atom *)
+Definition ok_at (g : list Z) (x : mp4_atom) : bool :=
+  (if mp4_named N_stco x then mp4_table_ok g 4 x else true) &&
+  (if mp4_named N_co64 x then mp4_table_ok g 8 x else true) &&
+  (if mp4_named N_tfhd x then mp4_tfhd_ok g x else true) &&
+  forallb (fun e : mp4_entry => snd e <=? zlen g) (mp4_atom_entries g x).
+
+Lemma forallb_flat_map {A B} (p : B -> bool) (F : A -> list B) l :
+  forallb p (flat_map F l) = forallb (fun a => forallb p (F a)) l.
+Proof. induction l as [|a r IH]; [reflexivity|]. cbn [flat_map forallb]. rewrite forallb_app, IH. reflexivity. Qed.
+Lemma forallb_andb {A} (p q : A -> bool) l : forallb (fun a => p a && q a) l = forallb p l && forallb q l.
+Proof.
+  induction l as [|a r IH]; [reflexivity|]. cbn [forallb]. rewrite IH.
+  destruct (p a), (q a), (forallb p r), (forallb q r); reflexivity.
+Qed.
+Lemma wf_tables_split g ks : mp4_tables_ok g ks && mp4_entries_in_file g ks = forallb (ok_at g) (mp4_flat ks).
+Proof.
+  unfold mp4_tables_ok, mp4_entries_in_file, mp4_all_entries, ok_at. rewrite forallb_flat_map.
+  rewrite <- forallb_andb. reflexivity.
+Qed.
+
+Lemma ok_at_nontable g x : is_table_name x = false -> ok_at g x = true.
+Proof.
+  unfold is_table_name, ok_at, mp4_atom_entries. intros H.
+  apply orb_false_iff in H. destruct H as [H H3]. apply orb_false_iff in H. destruct H as [H1 H2].
+  rewrite H1, H2, H3. reflexivity.
+Qed.
+
+Lemma forallb_numbered (w o L : Z) l : forall i,
+  forallb (fun e : mp4_entry => snd e <=? L) (map (fun ix : Z * Z => (w, o, fst ix, snd ix)) (mp4_number i l)) =
+  forallb (fun v => v <=? L) l.
+Proof. induction l as [|x r IH]; intros i; [reflexivity|]. cbn [mp4_number map forallb snd]. rewrite IH. reflexivity. Qed.
+
+Lemma shift_is_table d x : is_table_name (shift_atom d x) = is_table_name x.
+Proof. unfold is_table_name, mp4_named. rewrite shift_name. reflexivity. Qed.
 
 Section Existing.
 Variables (f : list Z) (atoms : list mp4_atom).
@@ -500,6 +537,155 @@ Proof.
     assert (HsL : s_lo (seg_of L) = ma_off L /\ s_hi (seg_of L) = ma_off L + ma_len L)
       by (unfold seg_of, s_lo, s_hi; rewrite KL; split; reflexivity).
     unfold clear_of. lia.
+Qed.
+
+(* ================================================================== the result is well-formed in full (mp4_wf) *)
+(* every table-named atom of the file is one the save visits (stco / co64 below the first moov, tfhd below a top-level moof) *)
+Definition covered (ks : list mp4_atom) : Prop :=
+  forall x, In x (mp4_flat ks) ->
+    (ma_name x = N_stco -> In x (mp4_stco_list ks)) /\ (ma_name x = N_co64 -> In x (mp4_co64_list ks)) /\
+    (ma_name x = N_tfhd -> In x (mp4_tfhd_list ks)).
+Hypothesis Hcov : covered atoms.
+Hypothesis Hent : mp4_entries_in_file f atoms = true.
+Hypothesis Hitclean : ilst_clean it = true.
+
+Lemma ok_old y : In y (mp4_flat atoms) -> ok_at f y = true.
+Proof.
+  intros Hy. assert (H : forallb (ok_at f) (mp4_flat atoms) = true) by (rewrite <- wf_tables_split, Htab, Hent; reflexivity).
+  rewrite forallb_forall in H. apply H. exact Hy.
+Qed.
+
+Lemma shift_le o L : o <= L -> L = zlen f -> mp4_shift off delta o <= zlen f'.
+Proof.
+  intros Ho ->. pose proof zlen_result. pose proof result_fits. pose proof (zlen_nonneg data).
+  unfold mp4_shift. destruct (off <? o) eqn:E; lia.
+Qed.
+
+Lemma entries_shift_ok (w : nat) y d :
+  tab_entries w f' (ma_off y + d) = map (mp4_shift off delta) (tab_entries w f (ma_off y)) ->
+  mp4_rd f' (ma_off y + d + 12) 4 = mp4_rd f (ma_off y + 12) 4 ->
+  forallb (fun e : mp4_entry => snd e <=? zlen f) (mp4_table_entries f (Z.of_nat w) y) = true ->
+  forallb (fun e : mp4_entry => snd e <=? zlen f') (mp4_table_entries f' (Z.of_nat w) (shift_atom d y)) = true.
+Proof.
+  intros TE Hc HE. unfold mp4_table_entries in *. rewrite shift_off, Hc. rewrite forallb_numbered in *.
+  assert (TE' : tab_entries w f' (ma_off y + d) =
+                mp4_unpack (Z.of_nat w) (Z.to_nat (be_decode (mp4_rd f (ma_off y + 12) 4)))
+                  (mp4_rd f' (ma_off y + d + 16) (Z.of_nat w * be_decode (mp4_rd f (ma_off y + 12) 4))))
+    by (unfold tab_entries; rewrite Hc; reflexivity).
+  rewrite <- TE', TE. rewrite forallb_forall. intros v Hv. apply in_map_iff in Hv. destruct Hv as (o & <- & Ho).
+  rewrite forallb_forall in HE. apply Z.leb_le. apply (shift_le o (zlen f)); [|reflexivity].
+  apply Z.leb_le. apply HE. unfold tab_entries in Ho. exact Ho.
+Qed.
+
+Lemma table_ok_moved (w : nat) y d : (0 < w)%nat -> mp4_table_ok f (Z.of_nat w) y = true ->
+  mp4_rd f' (ma_off y + d + 12) 4 = mp4_rd f (ma_off y + 12) 4 ->
+  mp4_table_ok f' (Z.of_nat w) (shift_atom d y) = true.
+Proof.
+  intros Hw H Hc. destruct (table_ok_facts f (Z.of_nat w) y H ltac:(lia)) as (Hh & C0 & CL).
+  unfold mp4_table_ok. rewrite shift_hdr, shift_len, shift_off, Hc, Hh.
+  apply andb_true_iff. split; [apply andb_true_iff; split; [reflexivity|apply Z.leb_le; nia]|apply Z.eqb_eq; exact CL].
+Qed.
+
+Lemma ok_moved y d : In y (mp4_flat atoms) ->
+  (ma_off y + ma_len y <= off /\ d = 0) \/ (off + old <= ma_off y /\ d = delta) ->
+  ok_at f' (shift_atom d y) = true.
+Proof.
+  intros Hy Hpos. pose proof (ok_old y Hy) as Hok.
+  destruct (is_table_name y) eqn:Etn; [|apply ok_at_nontable; rewrite shift_is_table; exact Etn].
+  destruct (flat_member_ok f atoms Hwf y Hy) as (top & Hyok). pose proof (atom_ok_len _ _ _ Hyok) as Ly.
+  assert (Hnp : mv off old data (ma_off y) = ma_off y + d).
+  { pose proof old_pos. unfold mv. destruct Hpos as [(P & ->)|(P & ->)]; destruct (off + old <=? ma_off y) eqn:E; lia. }
+  destruct fres as (_ & _ & _ & _ & U4 & U8 & UT).
+  destruct (Hcov y Hy) as (C4 & C8 & CT).
+  unfold ok_at in Hok. apply andb_true_iff in Hok. destruct Hok as [Hok HE]. apply andb_true_iff in Hok. destruct Hok as [Hok H3].
+  apply andb_true_iff in Hok. destruct Hok as [H1 H2].
+  unfold ok_at, mp4_atom_entries in *. unfold mp4_named in *. rewrite !shift_name.
+  destruct (list_eqb (ma_name y) N_stco) eqn:E4.
+  - apply list_eqb_spec in E4. rewrite E4 in *.
+    change (list_eqb N_stco N_stco) with true in *. change (list_eqb N_stco N_co64) with false in *.
+    change (list_eqb N_stco N_tfhd) with false in *. cbv iota in *.
+    destruct (U4 y (C4 eq_refl)) as (A16 & TE). rewrite Hnp in *.
+    assert (Hc : mp4_rd f' (ma_off y + d + 12) 4 = mp4_rd f (ma_off y + 12) 4) by (symmetry; apply (agree_rd _ _ _ _ _ 12 4 A16); lia).
+    pose proof (table_ok_moved 4 y d ltac:(lia) H1 Hc) as X1. pose proof (entries_shift_ok 4 y d TE Hc HE) as X2.
+    change (Z.of_nat 4) with 4 in X1, X2. rewrite X1, X2. reflexivity.
+  - destruct (list_eqb (ma_name y) N_co64) eqn:E8.
+    + apply list_eqb_spec in E8. rewrite E8 in *.
+      change (list_eqb N_co64 N_co64) with true in *. change (list_eqb N_co64 N_tfhd) with false in *. cbv iota in *.
+      destruct (U8 y (C8 eq_refl)) as (A16 & TE). rewrite Hnp in *.
+      assert (Hc : mp4_rd f' (ma_off y + d + 12) 4 = mp4_rd f (ma_off y + 12) 4) by (symmetry; apply (agree_rd _ _ _ _ _ 12 4 A16); lia).
+      pose proof (table_ok_moved 8 y d ltac:(lia) H2 Hc) as X1. pose proof (entries_shift_ok 8 y d TE Hc HE) as X2.
+      change (Z.of_nat 8) with 8 in X1, X2. rewrite X1, X2. reflexivity.
+    + destruct (list_eqb (ma_name y) N_tfhd) eqn:ET.
+      * apply list_eqb_spec in ET. rewrite ET in *. change (list_eqb N_tfhd N_tfhd) with true in *. cbv iota in *.
+        destruct (UT y (CT eq_refl)) as (A12 & UF & UTT). rewrite Hnp in *.
+        destruct (tfhd_ok_facts f y H3) as (Hh & C12 & C24).
+        assert (Hfl : mp4_tfhd_flag f' (shift_atom d y) = mp4_tfhd_flag f y).
+        { unfold mp4_tfhd_flag. rewrite shift_off. symmetry. apply (tfhd_flag_agree _ _ _ _ _ A12). lia. }
+        assert (TO : mp4_tfhd_ok f' (shift_atom d y) = true).
+        { unfold mp4_tfhd_ok. rewrite Hfl, shift_hdr, shift_len, Hh.
+          apply andb_true_iff. split; [apply andb_true_iff; split; [reflexivity|apply Z.leb_le; lia]|].
+          destruct (mp4_tfhd_flag f y) eqn:Ef; [|reflexivity]. cbn [negb orb]. apply Z.leb_le. apply C24. reflexivity. }
+        rewrite TO. rewrite Hfl. destruct (mp4_tfhd_flag f y) eqn:Ef; [|reflexivity].
+        cbn [forallb snd andb] in *. rewrite andb_true_r in *. rewrite shift_off.
+        destruct (UTT Ef) as (TB & _). unfold tfhd_base in TB. rewrite TB.
+        apply Z.leb_le. apply (shift_le _ (zlen f)); [|reflexivity]. apply Z.leb_le. exact HE.
+      * unfold is_table_name, mp4_named in Etn. rewrite E4, E8, ET in Etn. discriminate.
+Qed.
+
+Lemma ok_before_part top l p e : mp4_forest_ok f top l p e = true -> e <= off -> (forall y, In y (mp4_flat l) -> In y (mp4_flat atoms)) ->
+  Forall (fun x => ok_at f' x = true) (mp4_flat l).
+Proof.
+  intros Hf He Hin. apply Forall_forall. intros y Hy.
+  pose proof (forest_within _ _ _ _ _ Hf) as W. rewrite Forall_forall in W. specialize (W y Hy). unfold within in W.
+  rewrite <- (shift_atom_zero y). apply ok_moved; [apply Hin; exact Hy|left; split; [lia|reflexivity]].
+Qed.
+Lemma ok_after_part top l p e : mp4_forest_ok f top l p e = true -> off + old <= p -> (forall y, In y (mp4_flat l) -> In y (mp4_flat atoms)) ->
+  Forall (fun x => ok_at f' x = true) (mp4_flat (shift_forest delta l)).
+Proof.
+  intros Hf He Hin. rewrite flat_shift_forest. apply Forall_forall. intros x Hx. apply in_map_iff in Hx. destruct Hx as (y & <- & Hy).
+  pose proof (forest_within _ _ _ _ _ Hf) as W. rewrite Forall_forall in W. specialize (W y Hy). unfold within in W.
+  apply ok_moved; [apply Hin; exact Hy|right; split; [lia|reflexivity]].
+Qed.
+
+Lemma named_not_table x n : ma_name x = n -> n <> N_stco -> n <> N_co64 -> n <> N_tfhd -> is_table_name x = false.
+Proof.
+  intros E A1 A2 A3. unfold is_table_name, mp4_named. rewrite E.
+  destruct (list_eqb n N_stco) eqn:B1; [apply list_eqb_spec in B1; contradiction|].
+  destruct (list_eqb n N_co64) eqn:B2; [apply list_eqb_spec in B2; contradiction|].
+  destruct (list_eqb n N_tfhd) eqn:B3; [apply list_eqb_spec in B3; contradiction|]. reflexivity.
+Qed.
+
+Lemma result_tables_ok : forallb (ok_at f') (mp4_flat new_atoms) = true.
+Proof.
+  pose proof positions as P. pose proof anc_pos as AP. pose proof old_pos as OP.
+  destruct top_split as (H1 & H2 & H3). destruct moov_split as (H4 & H5 & H6). destruct udta_split as (H7 & H8 & H9).
+  apply forallb_forall. apply Forall_forall.
+  unfold new_atoms. rewrite flat_app, flat_cons. apply Forall_app. split; [apply (ok_before_part _ _ _ _ H1); [lia|exact T1_in]|].
+  apply Forall_app. split; [|apply (ok_after_part _ _ _ _ H3); [lia|exact T2_in]].
+  unfold new_moov. rewrite flat_atom_node. constructor.
+  { apply ok_at_nontable. apply (named_not_table _ N_moov); [exact Nmoov|discriminate|discriminate|discriminate]. }
+  rewrite flat_app, flat_cons. apply Forall_app. split; [apply (ok_before_part _ _ _ _ H4); [lia|exact M1_in]|].
+  apply Forall_app. split; [|apply (ok_after_part _ _ _ _ H6); [lia|exact M2_in]].
+  unfold new_udta. rewrite flat_atom_node. constructor.
+  { apply ok_at_nontable. apply (named_not_table _ N_udta); [exact Nudta|discriminate|discriminate|discriminate]. }
+  rewrite flat_app, flat_cons. apply Forall_app. split; [apply (ok_before_part _ _ _ _ H7); [lia|exact U1_in]|].
+  apply Forall_app. split; [|apply (ok_after_part _ _ _ _ H9); [lia|exact U2_in]].
+  unfold new_meta. rewrite flat_atom_node. constructor.
+  { apply ok_at_nontable. apply (named_not_table _ N_meta); [exact Nmeta|discriminate|discriminate|discriminate]. }
+  rewrite !flat_app. apply Forall_app. split; [apply (ok_before_part _ _ _ _ FA); [lia|exact A_in]|].
+  apply Forall_app. split; [|apply (ok_after_part _ _ _ _ FB); [lia|exact B_in]].
+  unfold mp4_flat. cbn [flat_map]. rewrite app_nil_r. apply Forall_app. split.
+  - unfold new_ilst. rewrite flat_shift. apply Forall_forall. intros x Hx. apply in_map_iff in Hx. destruct Hx as (y & <- & Hy).
+    apply ok_at_nontable. rewrite shift_is_table. unfold ilst_clean in Hitclean. rewrite forallb_forall in Hitclean.
+    specialize (Hitclean y Hy). apply negb_true_iff in Hitclean. exact Hitclean.
+  - unfold new_free. rewrite flat_atom_leaf. constructor; [|constructor]. apply ok_at_nontable. reflexivity.
+Qed.
+
+Theorem existing_result_wf : mp4_wf f' = true.
+Proof.
+  pose proof existing_result_wellformed as W. pose proof result_tables_ok as T. rewrite <- wf_tables_split in T.
+  unfold mp4_wf, mp4_parse. rewrite (parse_complete f' new_atoms W). rewrite W. cbn [andb].
+  apply andb_true_iff in T. destruct T as [T1' T2']. rewrite T1', T2'. reflexivity.
 Qed.
 (*EXISTING-CONTINUES*)
 End Existing.
